@@ -32,6 +32,7 @@ type Job struct {
 	Cases   int
 	Extra   string
 	Timeout time.Duration
+	Race    bool // run under the Go race detector (auxiliary sensor, thorough tier)
 }
 
 // Plan describes the check of one property.
@@ -44,6 +45,9 @@ type Plan struct {
 	Jobs  func(tier string) []Job
 	// CrashIsViolation: a worker that dies in jiva code refutes the property
 	CrashSig func(lastOp string, log string) (string, string)
+	// RaceJobs: workers additionally run from a -race build in the thorough tier; their race reports are
+	// counted and de-duplicated in the evidence as an auxiliary observation, never as a verdict
+	RaceJobs func() []Job
 }
 
 func jobs(engine string, workers, cases int, extra string, timeout time.Duration) []Job {
@@ -83,6 +87,18 @@ func runCheck(id, tier string, rest []string) int {
 	defer os.RemoveAll(scratch)
 
 	js := plan.Jobs(tier)
+	raceBin := ""
+	if plan.RaceJobs != nil && (tier == "thorough" || os.Getenv("VERIF_RACE") == "1") {
+		if rb, err := buildRace(scratch); err == nil {
+			raceBin = rb
+			for _, j := range plan.RaceJobs() {
+				j.Race = true
+				js = append(js, j)
+			}
+		} else {
+			fmt.Fprintln(os.Stderr, "note: race build unavailable:", err)
+		}
+	}
 	total := vk.NewResult("driver")
 	needBin := false
 	for _, j := range js {
@@ -118,12 +134,20 @@ func runCheck(id, tier string, rest []string) int {
 			if j.Extra != "" {
 				args = append(args, "-extra", j.Extra)
 			}
-			status := spawn(self, args, logf, j.Timeout)
+			bin, env := self, []string(nil)
+			if j.Race {
+				bin = raceBin
+				env = []string{"GORACE=halt_on_error=0 log_path=" + filepath.Join(scratch, fmt.Sprintf("race.w%d", i))}
+			}
+			status := spawn(bin, args, logf, j.Timeout, env...)
 			res, err := vk.ReadResult(out)
 			mu.Lock()
 			defer mu.Unlock()
 			if res != nil && err == nil {
 				total.Merge(res)
+			}
+			if j.Race && status == "exit status 66" {
+				status = "ok" // the race detector's exit code when it reported something; reports are summarised separately
 			}
 			switch status {
 			case "ok":
@@ -188,7 +212,9 @@ func runCheck(id, tier string, rest []string) int {
 	if len(samples) == 0 {
 		samples = []interface{}{"no sample recorded"}
 	}
+	race := summariseRaces(scratch)
 	ev.Coverage = map[string]interface{}{
+		"race_detector":       race,
 		"evaluations":         total.Cases,
 		"distinct_nontrivial": distinct,
 		"rule":                plan.Rule,
@@ -211,6 +237,74 @@ func runCheck(id, tier string, rest []string) int {
 		return 2
 	}
 	return exit
+}
+
+// buildRace compiles the harness (and jiva with it) with the race detector.
+func buildRace(scratch string) (string, error) {
+	bin := filepath.Join(scratch, "vcheck-race")
+	args := []string{"build", "-race", "-tags", "verif", "-o", bin}
+	if alt := os.Getenv("VERIF_ALT_REPO"); alt != "" {
+		args = append(args, "-modfile="+filepath.Join("/verif/.bin", "alt-"+strings.ReplaceAll(alt, "/", "_"), "go.mod"))
+	}
+	args = append(args, "./cmd/vcheck")
+	cmd := exec.Command("go", args...)
+	cmd.Dir = filepath.Join(verifRoot, "harness")
+	cmd.Env = append(os.Environ(), "GOFLAGS=-mod=mod", "GOPROXY=off", "GOSUMDB=off", "GOTOOLCHAIN=local", "CGO_ENABLED=1")
+	out, err := cmd.CombinedOutput()
+	if err != nil {
+		return "", fmt.Errorf("%v: %.300s", err, out)
+	}
+	return bin, nil
+}
+
+// summariseRaces counts and de-duplicates the race detector's reports of this run
+// (by the pair of innermost non-runtime functions, line numbers stripped).
+func summariseRaces(scratch string) map[string]interface{} {
+	files, _ := filepath.Glob(filepath.Join(scratch, "race.w*"))
+	reports := 0
+	pairs := map[string]int{}
+	for _, f := range files {
+		lines := readLines(f, 2000000)
+		for i := 0; i < len(lines); i++ {
+			if !strings.HasPrefix(lines[i], "WARNING: DATA RACE") {
+				continue
+			}
+			reports++
+			var tops []string
+			for k := i + 1; k < len(lines) && !strings.HasPrefix(lines[k], "=================="); k++ {
+				l := lines[k]
+				if strings.HasPrefix(l, "Write at") || strings.HasPrefix(l, "Read at") || strings.HasPrefix(l, "Previous write at") || strings.HasPrefix(l, "Previous read at") {
+					for m := k + 1; m < len(lines) && strings.TrimSpace(lines[m]) != ""; m += 2 {
+						fn := strings.TrimSpace(lines[m])
+						if strings.HasPrefix(fn, "runtime.") || strings.HasPrefix(fn, "sync.") || strings.HasPrefix(fn, "sync/atomic.") {
+							continue
+						}
+						if p := strings.LastIndex(fn, "("); p > 0 {
+							fn = fn[:p]
+						}
+						tops = append(tops, fn)
+						break
+					}
+				}
+			}
+			sort.Strings(tops)
+			pairs[strings.Join(tops, " <-> ")]++
+		}
+	}
+	var list []string
+	inJiva := 0
+	for p, n := range pairs {
+		list = append(list, fmt.Sprintf("%dx %s", n, p))
+		if strings.Contains(p, "github.com/openebs/jiva") {
+			inJiva++
+		}
+	}
+	sort.Strings(list)
+	if len(list) > 25 {
+		list = list[:25]
+	}
+	return map[string]interface{}{"race_build_workers": len(files), "reports": reports, "distinct_function_pairs": len(pairs), "pairs_involving_jiva_code": inJiva, "pairs": list,
+		"note": "auxiliary sensor only: none of the properties is data-race freedom and the pinned tree has unsynchronised flags by construction; harmful races are caught by the behavioural monitors"}
 }
 
 // buildJiva compiles the real jiva binary from the tree under check.
@@ -251,7 +345,7 @@ func pidAlive(dir string) bool {
 
 // spawn runs a worker with stdout/stderr to a file (never a pipe) and a
 // wall-clock watchdog (SIGQUIT for a goroutine dump, then SIGKILL).
-func spawn(self string, args []string, logf string, timeout time.Duration) string {
+func spawn(self string, args []string, logf string, timeout time.Duration, env ...string) string {
 	lf, err := os.Create(logf)
 	if err != nil {
 		return "nolog"
@@ -260,7 +354,7 @@ func spawn(self string, args []string, logf string, timeout time.Duration) strin
 	cmd := exec.Command(self, args...)
 	cmd.Stdout = lf
 	cmd.Stderr = lf
-	cmd.Env = append(os.Environ(), "GOTRACEBACK=all")
+	cmd.Env = append(append(os.Environ(), "GOTRACEBACK=all"), env...)
 	cmd.SysProcAttr = &syscall.SysProcAttr{Setpgid: true, Pdeathsig: syscall.SIGKILL}
 	if err := cmd.Start(); err != nil {
 		return "nostart"
